@@ -102,4 +102,351 @@ theorem checkType_ok (m maj sub : Bytes) (h : TypeOK m maj sub) : checkType m = 
   have e2 : sub.isEmpty = false := by cases sub <;> simp_all
   simp [e2]
 
+/-! ### the three spellings of a value -/
+
+theorem quoteChar_tail (c : Nat) : quoteChar c = [c] ∨ (quoteChar c = [0x5C, c] ∧ (c = 0x22 ∨ c = 0x5C)) := by
+  unfold quoteChar
+  split
+  · rename_i h
+    right
+    refine ⟨rfl, ?_⟩
+    simpa using h
+  · left; rfl
+
+/-- a value that needs no RFC 2231 encoding consists of printable ASCII and tabs -/
+theorem plain_chars (v : Bytes) (h : needsEncoding v = false) : ∀ c ∈ v, (0x20 ≤ c ∧ c ≤ 0x7E) ∨ c = 0x09 := by
+  intro c hc
+  simp only [needsEncoding, List.any_eq_false, Bool.and_eq_true, Bool.or_eq_true, decide_eq_true_eq, bne_iff_ne, ne_eq, not_and,
+    Decidable.not_not] at h
+  have := h c hc
+  by_cases h9 : c = 0x09
+  · exact Or.inr h9
+  · left
+    by_cases hlo : c < 0x20
+    · exact absurd (this (Or.inl hlo)) h9
+    · by_cases hhi : c > 0x7E
+      · exact absurd (this (Or.inr hhi)) h9
+      · omega
+
+theorem unquote_close (rest acc : Bytes) : unquote (0x22 :: rest) acc = some (acc.reverse, rest) := by
+  rw [unquote.eq_def]; simp
+
+theorem unquote_plain (c : Nat) (x acc : Bytes) (h1 : c ≠ 0x22) (h2 : c ≠ 0x5C) (h3 : c ≠ 0x0D) (h4 : c ≠ 0x0A) :
+    unquote (c :: x) acc = unquote x (c :: acc) := by
+  have e1 : (c == 0x22) = false := by simpa using h1
+  have e2 : (c == 0x5C) = false := by simpa using h2
+  have e3 : (c == 0x0D || c == 0x0A) = false := by simp [h3, h4]
+  rw [unquote.eq_def]
+  simp [e1, e2, e3]
+
+theorem unquote_esc (d : Nat) (x acc : Bytes) (h : isTSpecial d = true) :
+    unquote (0x5C :: d :: x) acc = unquote x (d :: acc) := by
+  rw [unquote.eq_def]
+  simp [h]
+
+/-- `unquote` undoes `quoteBody` -/
+theorem unquote_quoteBody (v : Bytes) (hv : ∀ c ∈ v, (0x20 ≤ c ∧ c ≤ 0x7E) ∨ c = 0x09) (rest : Bytes) :
+    ∀ acc : Bytes, unquote (quoteBody v ++ 0x22 :: rest) acc = some (acc.reverse ++ v, rest) := by
+  induction v with
+  | nil => intro acc; simp [quoteBody, unquote_close]
+  | cons c cs ih =>
+    intro acc
+    have hc := hv c (List.mem_cons_self ..)
+    have ih' := ih (fun x hx => hv x (List.mem_cons_of_mem _ hx))
+    have hb : quoteBody (c :: cs) = quoteChar c ++ quoteBody cs := by simp [quoteBody]
+    rw [hb]
+    by_cases hq : c = 0x22 ∨ c = 0x5C
+    · have e : quoteChar c = [0x5C, c] := by
+        unfold quoteChar
+        rcases hq with rfl | rfl <;> rfl
+      have hts : isTSpecial c = true := by rcases hq with rfl | rfl <;> decide
+      rw [e]
+      simp only [List.cons_append, List.nil_append]
+      rw [unquote_esc c _ _ hts, ih' (c :: acc)]
+      simp
+    · have e : quoteChar c = [c] := by
+        unfold quoteChar
+        have : (c == 0x22 || c == 0x5C) = false := by
+          simp only [Bool.or_eq_false_iff, beq_eq_false_iff_ne]
+          exact ⟨fun h => hq (Or.inl h), fun h => hq (Or.inr h)⟩
+        simp [this]
+      rw [e]
+      simp only [List.cons_append, List.nil_append]
+      rw [unquote_plain c _ _ (fun h => hq (Or.inl h)) (fun h => hq (Or.inr h)) (by omega) (by omega), ih' (c :: acc)]
+      simp
+
+theorem upperHex_unhex (n : Nat) (h : n < 16) : unhex1 (upperHex n) = some n := by
+  unfold upperHex unhex1
+  split
+  · have : (decide (0x30 ≤ 48 + n) && decide (48 + n ≤ 0x39)) = true := by simp; omega
+    simp only [this, ↓reduceIte]
+    congr 1; omega
+  · have a : (decide (0x30 ≤ 55 + n) && decide (55 + n ≤ 0x39)) = false := by simp; omega
+    have b : (decide (0x61 ≤ 55 + n) && decide (55 + n ≤ 0x66)) = false := by simp; omega
+    have c : (decide (0x41 ≤ 55 + n) && decide (55 + n ≤ 0x46)) = true := by simp; omega
+    simp only [a, b, c, Bool.false_eq_true, ↓reduceIte]
+    congr 1; omega
+
+theorem pctDecode_esc (a b x y : Nat) (r t : Bytes) (ha : unhex1 a = some x) (hb : unhex1 b = some y) (hr : pctDecode r = some t) :
+    pctDecode (0x25 :: a :: b :: r) = some ((x * 16 + y) :: t) := by
+  rw [pctDecode.eq_def]
+  simp [ha, hb, hr]
+
+theorem pctDecode_plain (c : Nat) (r : Bytes) (h : c ≠ 0x25) : pctDecode (c :: r) = (pctDecode r).map (c :: ·) := by
+  rw [pctDecode.eq_def]
+  split
+  · rename_i e; cases e
+  · rename_i e; simp only [List.cons.injEq] at e; exact absurd e.1 h
+  · rename_i e; simp only [List.cons.injEq] at e; exact absurd e.1 h
+  · rename_i e; simp only [List.cons.injEq] at e; rw [e.1, e.2]
+
+/-- `percentHexUnescape` undoes the RFC 2231 percent-encoding -/
+theorem pctDecode_pctEncode (v : Bytes) (hv : AllBytes v) : pctDecode (pctEncode v) = some v := by
+  induction v with
+  | nil => rfl
+  | cons c cs ih =>
+    have hc : c < 256 := hv c (List.mem_cons_self ..)
+    have ih' := ih (fun x hx => hv x (List.mem_cons_of_mem _ hx))
+    have hb : pctEncode (c :: cs) = pctEncodeChar c ++ pctEncode cs := by simp [pctEncode]
+    rw [hb]
+    by_cases hcond : (decide (c ≤ 0x20) || decide (c ≥ 0x7F) || c == 0x2A || c == 0x27 || c == 0x25 || isTSpecial c) = true
+    · have e : pctEncodeChar c = [0x25, upperHex (c / 16), upperHex (c % 16)] := by
+        unfold pctEncodeChar; rw [if_pos hcond]
+      rw [e]
+      simp only [List.cons_append, List.nil_append]
+      rw [pctDecode_esc _ _ _ _ _ _ (upperHex_unhex (c / 16) (by omega)) (upperHex_unhex (c % 16) (by omega)) ih']
+      simp only [Option.some.injEq, List.cons.injEq, and_true]
+      omega
+    · have e : pctEncodeChar c = [c] := by
+        unfold pctEncodeChar; rw [if_neg hcond]
+      have hne : c ≠ 0x25 := by
+        intro h; subst h; exact hcond (by decide)
+      rw [e]
+      simp only [List.cons_append, List.nil_append]
+      rw [pctDecode_plain c _ hne, ih']
+      rfl
+
+theorem upperHex_token (n : Nat) (h : n < 16) : isTokenChar (upperHex n) = true := by
+  have : n = 0 ∨ n = 1 ∨ n = 2 ∨ n = 3 ∨ n = 4 ∨ n = 5 ∨ n = 6 ∨ n = 7 ∨ n = 8 ∨ n = 9 ∨ n = 10 ∨ n = 11 ∨ n = 12 ∨
+      n = 13 ∨ n = 14 ∨ n = 15 := by omega
+  rcases this with rfl | rfl | rfl | rfl | rfl | rfl | rfl | rfl | rfl | rfl | rfl | rfl | rfl | rfl | rfl | rfl <;> decide
+
+theorem pctEncode_token (v : Bytes) (hv : AllBytes v) : ∀ c ∈ pctEncode v, isTokenChar c = true := by
+  induction v with
+  | nil => simp [pctEncode]
+  | cons x xs ih =>
+    have hx : x < 256 := hv x (List.mem_cons_self ..)
+    have ih' := ih (fun y hy => hv y (List.mem_cons_of_mem _ hy))
+    have hb : pctEncode (x :: xs) = pctEncodeChar x ++ pctEncode xs := by simp [pctEncode]
+    rw [hb]
+    intro c hc
+    rcases List.mem_append.mp hc with hc | hc
+    · by_cases hcond : (decide (x ≤ 0x20) || decide (x ≥ 0x7F) || x == 0x2A || x == 0x27 || x == 0x25 || isTSpecial x) = true
+      · have e : pctEncodeChar x = [0x25, upperHex (x / 16), upperHex (x % 16)] := by
+          unfold pctEncodeChar; rw [if_pos hcond]
+        rw [e] at hc
+        simp only [List.mem_cons, List.mem_nil_iff, or_false] at hc
+        rcases hc with rfl | rfl | rfl
+        · decide
+        · exact upperHex_token _ (by omega)
+        · exact upperHex_token _ (by omega)
+      · have e : pctEncodeChar x = [x] := by
+          unfold pctEncodeChar; rw [if_neg hcond]
+        rw [e] at hc
+        simp only [List.mem_cons, List.mem_nil_iff, or_false] at hc
+        subst hc
+        simp only [Bool.or_eq_true, decide_eq_true_eq, beq_iff_eq, not_or] at hcond
+        simp only [isTokenChar, Bool.and_eq_true, decide_eq_true_eq, Bool.not_eq_true']
+        refine ⟨⟨by omega, by omega⟩, ?_⟩
+        simpa using hcond.2
+    · exact ih' c hc
+
+/-! ### the round trip -/
+
+theorem kCharset_token : ∀ c ∈ kCharset, isTokenChar c = true := by decide
+theorem kCharsetStar_token : ∀ c ∈ kCharset ++ [0x2A], isTokenChar c = true := by decide
+theorem utf8pp_token : ∀ c ∈ utf8pp, isTokenChar c = true := by decide
+
+theorem parseParams_nil (fuel : Nat) (acc : List (Bytes × Bytes)) : parseParams fuel [] acc = (.none, acc.reverse) := by
+  cases fuel with
+  | zero => rfl
+  | succ f => simp [parseParams, trimLeft]
+
+theorem format1_eq (m maj sub cs : Bytes) (hm : TypeOK m maj sub) :
+    format1 m kCharset cs = m ++ 0x3B :: 0x20 :: (kCharset ++ formatValue cs) := by
+  unfold format1
+  simp only [hm.cut, hm.tmaj, hm.tsub, Bool.and_self, ↓reduceIte, hm.lmaj, hm.lsub]
+  have : isToken kCharset = true := by decide
+  have hl : lower kCharset = kCharset := by decide
+  simp only [this, Bool.not_true, Bool.false_eq_true, ↓reduceIte, hl]
+  rw [cutSlash_join m maj sub hm.cut]
+  simp
+
+/-- the parameter as `consumeMediaParam` reads it back, for the three spellings -/
+theorem consumeParam_value (cs : Bytes) (hne : cs ≠ []) (hb : AllBytes cs) :
+    ∃ k val, consumeParam (0x3B :: 0x20 :: (kCharset ++ formatValue cs)) = some (k, val, []) ∧
+      ((k = kCharset ∧ val = cs) ∨ (k = kCharset ++ [0x2A] ∧ val = utf8pp ++ pctEncode cs)) := by
+  unfold consumeParam
+  have t1 : trimLeft (0x3B :: 0x20 :: (kCharset ++ formatValue cs)) = 0x3B :: 0x20 :: (kCharset ++ formatValue cs) := by
+    simp [trimLeft, List.dropWhile, isSp]
+  rw [t1]
+  simp only
+  have t2 : trimLeft (0x20 :: (kCharset ++ formatValue cs)) = kCharset ++ formatValue cs := by
+    simp [trimLeft, List.dropWhile, isSp, kCharset]
+  rw [t2]
+  unfold formatValue
+  by_cases hE : needsEncoding cs = true
+  · -- RFC 2231
+    simp only [hE, ↓reduceIte]
+    have e : kCharset ++ ([0x2A, 0x3D] ++ utf8pp ++ pctEncode cs) = (kCharset ++ [0x2A]) ++ 0x3D :: (utf8pp ++ pctEncode cs) := by simp
+    rw [e, consumeToken_app _ _ kCharsetStar_token (by simp [tokenChar_eq])]
+    have ne : (kCharset ++ [0x2A]).isEmpty = false := by decide
+    simp only [ne, Bool.false_eq_true, ↓reduceIte]
+    have t3 : trimLeft (0x3D :: (utf8pp ++ pctEncode cs)) = 0x3D :: (utf8pp ++ pctEncode cs) := by simp [trimLeft, List.dropWhile, isSp]
+    rw [t3]
+    simp only
+    have t4 : trimLeft (utf8pp ++ pctEncode cs) = utf8pp ++ pctEncode cs := by simp [trimLeft, List.dropWhile, isSp, utf8pp]
+    rw [t4]
+    have hv : consumeValue (utf8pp ++ pctEncode cs) = some (utf8pp ++ pctEncode cs, []) := by
+      have htok : ∀ c ∈ utf8pp ++ pctEncode cs, isTokenChar c = true := by
+        intro c hc
+        rcases List.mem_append.mp hc with h | h
+        · exact utf8pp_token c h
+        · exact pctEncode_token cs hb c h
+      have := consumeToken_app (utf8pp ++ pctEncode cs) [] htok (by simp)
+      rw [List.append_nil] at this
+      simp only [utf8pp, List.cons_append] at this ⊢
+      simp only [consumeValue]
+      rw [this]
+      simp
+    rw [hv]
+    exact ⟨_, _, rfl, Or.inr ⟨by decide, rfl⟩⟩
+  · have hE' : needsEncoding cs = false := by simpa using hE
+    simp only [hE', Bool.false_eq_true, ↓reduceIte]
+    by_cases hT : isToken cs = true
+    · -- token
+      simp only [hT, ↓reduceIte]
+      rw [consumeToken_app kCharset (0x3D :: cs) kCharset_token (by simp [tokenChar_eq])]
+      have ne : kCharset.isEmpty = false := by decide
+      simp only [ne, Bool.false_eq_true, ↓reduceIte]
+      have t3 : trimLeft (0x3D :: cs) = 0x3D :: cs := by simp [trimLeft, List.dropWhile, isSp]
+      rw [t3]
+      simp only
+      obtain ⟨_, htc⟩ := token_chars cs hT
+      cases cs with
+      | nil => exact absurd rfl hne
+      | cons c rest =>
+        have hc := htc c (List.mem_cons_self ..)
+        have t4 : trimLeft (c :: rest) = c :: rest := trimLeft_id _ (by simp [isTokenChar_not_sp c hc])
+        rw [t4]
+        have hq : c ≠ 0x22 := by intro e; subst e; exact absurd hc (by decide)
+        have := consumeToken_app (c :: rest) [] htc (by simp)
+        rw [List.append_nil] at this
+        have hv : consumeValue (c :: rest) = some (c :: rest, []) := by
+          unfold consumeValue
+          split
+          · rename_i e; cases e
+          · rename_i r e; simp only [List.cons.injEq] at e; exact absurd e.1 hq
+          · rw [this]; simp
+        rw [hv]
+        exact ⟨_, _, rfl, Or.inl ⟨by decide, rfl⟩⟩
+    · -- quoted string
+      have hT' : isToken cs = false := by simpa using hT
+      simp only [hT', Bool.false_eq_true, ↓reduceIte]
+      have e : kCharset ++ ([0x3D, 0x22] ++ quoteBody cs ++ [0x22]) = kCharset ++ 0x3D :: (0x22 :: (quoteBody cs ++ [0x22])) := by simp
+      rw [e, consumeToken_app kCharset _ kCharset_token (by simp [tokenChar_eq])]
+      have ne : kCharset.isEmpty = false := by decide
+      simp only [ne, Bool.false_eq_true, ↓reduceIte]
+      have t3 : trimLeft (0x3D :: 0x22 :: (quoteBody cs ++ [0x22])) = 0x3D :: 0x22 :: (quoteBody cs ++ [0x22]) := by
+        simp [trimLeft, List.dropWhile, isSp]
+      rw [t3]
+      simp only
+      have t4 : trimLeft (0x22 :: (quoteBody cs ++ [0x22])) = 0x22 :: (quoteBody cs ++ [0x22]) := by simp [trimLeft, List.dropWhile, isSp]
+      rw [t4]
+      have hv : consumeValue (0x22 :: (quoteBody cs ++ [0x22])) = some (cs, []) := by
+        simp only [consumeValue]
+        have := unquote_quoteBody cs (plain_chars cs hE') [] []
+        simpa using this
+      rw [hv]
+      exact ⟨_, _, rfl, Or.inl ⟨by decide, rfl⟩⟩
+
+theorem decode2231_utf8 (cs : Bytes) (hb : AllBytes cs) : decode2231 (utf8pp ++ pctEncode cs) = some cs := by
+  unfold decode2231
+  have s1 : splitQuote (utf8pp ++ pctEncode cs) = some ([117, 116, 102, 45, 56], 0x27 :: pctEncode cs) := by
+    simp [utf8pp, splitQuote]
+  rw [s1]
+  simp only
+  have s2 : splitQuote (0x27 :: pctEncode cs) = some ([], pctEncode cs) := by simp [splitQuote]
+  rw [s2]
+  simp only
+  have l : lower [117, 116, 102, 45, 56] = [117, 116, 102, 45, 56] := by decide
+  rw [l]
+  simp [pctDecode_pctEncode cs hb]
+
+/-- **round trip**: the model of `mime.ParseMediaType` reads back exactly what the model of
+    `mime.FormatMediaType` wrote: the type and the single parameter `charset`, for every
+    non-empty value (token, quoted string or RFC 2231 encoded) -/
+theorem format_parse_roundtrip (m maj sub cs : Bytes) (hm : TypeOK m maj sub) (hne : cs ≠ []) (hb : AllBytes cs) :
+    parse (format1 m kCharset cs) = (m, [(kCharset, cs)], .none) := by
+  obtain ⟨n1, t1⟩ := token_chars maj hm.tmaj
+  obtain ⟨n2, t2⟩ := token_chars sub hm.tsub
+  have hmj := cutSlash_join m maj sub hm.cut
+  have hsemi : ∀ c ∈ m, c ≠ 0x3B := by
+    intro c hc e
+    subst e
+    rw [hmj] at hc
+    rcases List.mem_append.mp hc with h | h
+    · exact absurd (t1 _ h) (by decide)
+    · rcases List.mem_cons.mp h with h | h
+      · cases h
+      · exact absurd (t2 _ h) (by decide)
+  have hlow : lower m = m := by
+    rw [hmj]
+    simp only [lower, List.map_append, List.map_cons] at *
+    have a := hm.lmaj
+    have b := hm.lsub
+    simp only [lower] at a b
+    rw [a, b]
+    simp
+  have htrim : trim m = m := by
+    apply trim_id
+    · intro c hc
+      rw [hmj] at hc
+      cases maj with
+      | nil => exact absurd rfl n1
+      | cons x xs =>
+        simp at hc; subst hc
+        exact isTokenChar_not_sp _ (t1 _ (List.mem_cons_self ..))
+    · intro c hc
+      rw [hmj] at hc
+      have hs : sub.getLast? = some c := by
+        cases sub with
+        | nil => exact absurd rfl n2
+        | cons y ys => simpa [List.getLast?_append, List.getLast?_cons_cons] using hc
+      exact isTokenChar_not_sp _ (t2 _ (List.mem_of_getLast? hs))
+  rw [format1_eq m maj sub cs hm]
+  unfold parse
+  rw [cutSemi_app m _ hsemi]
+  simp only [hlow, htrim, checkType_ok m maj sub hm, Bool.not_true, Bool.false_eq_true, ↓reduceIte]
+  obtain ⟨k, val, hcp, hkv⟩ := consumeParam_value cs hne hb
+  -- the parameter loop
+  have hloop : parseParams ((m ++ 0x3B :: 0x20 :: (kCharset ++ formatValue cs)).length + 1)
+      (0x3B :: 0x20 :: (kCharset ++ formatValue cs)) [] = (.none, [(k, val)]) := by
+    rw [parseParams]
+    have t1 : trimLeft (0x3B :: 0x20 :: (kCharset ++ formatValue cs)) = 0x3B :: 0x20 :: (kCharset ++ formatValue cs) := by
+      simp [trimLeft, List.dropWhile, isSp]
+    simp only [t1, List.isEmpty_cons, Bool.false_eq_true, ↓reduceIte, hcp, List.any_nil, parseParams_nil]
+    rfl
+  rw [hloop]
+  simp only
+  rcases hkv with ⟨rfl, rfl⟩ | ⟨rfl, rfl⟩
+  · have : ¬ (0x2A ∈ kCharset) := by decide
+    simp [this]
+  · have c1 : 0x2A ∈ kCharset ++ [0x2A] := by decide
+    have c2 : (kCharset ++ [0x2A]).getLast? = some 0x2A := by decide
+    have c3 : (kCharset ++ [0x2A]).dropLast = kCharset := by decide
+    have c4 : ¬ (0x2A ∈ kCharset) := by decide
+    simp only [List.filterMap_cons, List.filterMap_nil, List.contains_eq_mem, c1, decide_true, ↓reduceIte, c2, c3, c4,
+      decide_false, Bool.not_false, Bool.and_self, beq_self_eq_true, decode2231_utf8 cs hb]
+
 end Mime.MT
